@@ -2,6 +2,7 @@ package c18
 
 import (
 	"fmt"
+	"strings"
 
 	"pgregory.net/rapid"
 )
@@ -24,6 +25,78 @@ func mode(rt *rapid.T, label string, wOmitted, wDisabled, wDisabledV, wEnabled i
 	}
 	return Enabled
 }
+
+// ---------------------------------------------------------------------------------------------
+// String values. The documentation gives tokens, API keys, header values, paths and names as quoted
+// YAML strings and puts no restriction on their characters ("use a strong, randomly generated
+// token", docs/admin-api-security.md): besides the documentation's own examples the generators draw
+// values with the characters that are ordinary inside a YAML scalar but special to shells, template
+// engines, URL or YAML tooling: $ ${..} $$ % # \ : { } [ ] & * ! | > ' " @ ` ~ and words that would be
+// a number / bool / null if they were not strings.
+// ---------------------------------------------------------------------------------------------
+
+// Secrets: admin tokens / API keys (no white space: they travel in "Authorization: Bearer <token>" /
+// "X-API-Key: <key>").
+var Secrets = []string{
+	`Xk9$$w0rd-7$q!`, `s3cr3t$HOME`, `${HELIOS_ADMIN_TOKEN}`, `$ADMIN_TOKEN`, `$1$abc$def`, `tok$`, `$`, `$$`, `a$b`, `$5`, `$*$#$@$!$?$-`, `${unterminated`, `${}`, `$(id)`,
+	`p%40ss%word`, `100%`, `%s%d%v`, `a#b`, `#hash-first`, `t:o:k`, `key:v`, `C:\tok\en`, `end\`, `\n\t`, `tok"en`, `it's`, `'quoted'`, `"dq"`,
+	`{curly}`, `{{tok}}`, `[brk]`, `*star`, `&anchor`, `!bang`, `|pipe`, `>fold`, `@at`, "`tick`", `~`, `~user`, `-dash-first`, `?q`, `a,b`, `a=b`, `<angle>`,
+	`null`, `true`, `no`, `123456`, `0x1F`, `1e3`, `1_000`, `.5`, `2024-01-01`, `eyJhbGciOiJIUzI1NiJ9.eyJzdWIiOiIxIn0.sig-_`,
+}
+
+// secretAlphabet: characters of randomly generated secrets.
+var secretAlphabet = []rune("abcXYZ019$$$%#\\:{}[]&*!|>'\"@`~-_./=+,;?^()<")
+
+// genSecret draws a token / API key: a documented example, an entry of Secrets, or a random string.
+func genSecret(rt *rapid.T, label string, documented ...string) string {
+	switch w := rapid.IntRange(0, 9).Draw(rt, label+"_kind"); {
+	case w < 4:
+		return rapid.SampledFrom(documented).Draw(rt, label)
+	case w < 8:
+		return rapid.SampledFrom(Secrets).Draw(rt, label+"_special")
+	}
+	return rapid.StringOfN(rapid.SampledFrom(secretAlphabet), 1, 24, -1).Draw(rt, label+"_random")
+}
+
+// HeaderValues: values set by the `headers` plugin (interior spaces allowed; no leading/trailing white space).
+var HeaderValues = []string{
+	`from $5`, `cost: $100`, `${upstream}`, `$remote_addr`, `a $$ b`, `100% helios`, `max-age=31536000; includeSubDomains`, `a # not a comment`, `#first`, `k: v`, `C:\path\x`,
+	`"quoted"`, `it's`, `{"json": true}`, `[1, 2]`, `*`, `&a`, `!x`, `| x`, `> x`, `@x`, "`x`", `~`, `null`, `true`, `42`, `1.5`, `text/html; charset=utf-8`, `W/"etag$1"`,
+}
+
+func genHeaderValue(rt *rapid.T, label, documented string) string {
+	switch w := rapid.IntRange(0, 9).Draw(rt, label+"_kind"); {
+	case w < 4:
+		return "" // the documentation's example value
+	case w < 8:
+		return rapid.SampledFrom(HeaderValues).Draw(rt, label)
+	}
+	v := rapid.StringOfN(rapid.SampledFrom(append([]rune(" "), secretAlphabet...)), 1, 24, -1).Draw(rt, label+"_random")
+	if v != strings.TrimSpace(v) || v == "" {
+		return documented + "$" + strings.TrimSpace(v)
+	}
+	return v
+}
+
+// URL paths (metrics endpoint, active health check): the documentation's values plus paths with
+// characters that are legal in a URL path segment as they are ($ : @ ~ = + , ; ! ' ( ) * &). No '{',
+// '}' (wildcard syntax of http.ServeMux patterns), white space, '%', '#', '?' (not part of a path).
+var pathSpecials = []string{`$1`, `$HOME`, `$$`, `$`, `:prom`, `@x`, `~1`, `=1`, `+x`, `,x;y`, `!x`, `'x'`, `(x)`, `*`, `&x`, `.x`, `-$lb`, `$x/$y`}
+
+func genPath(rt *rapid.T, label string, documented ...string) string {
+	p := rapid.SampledFrom(documented).Draw(rt, label)
+	if rapid.IntRange(0, 9).Draw(rt, label+"_special") < 5 {
+		if p == "/" {
+			p = "/h"
+		}
+		p += rapid.SampledFrom(pathSpecials).Draw(rt, label+"_suffix")
+	}
+	return p
+}
+
+// backend names: the documentation's serverN plus names with special characters (%d = position).
+var nameForms = []string{`server%d`, `server%d`, `server%d`, `srv$%d`, `$primary%d`, `web-${zone}-%d`, `$$%d`, `api#%d`, `#%d`, `db:%d`, `c:\srv\%d`, `%d%%-canary`, `node"%d"`, `it's-%d`, `[blue-%d]`,
+	`{green-%d}`, `*any%d`, `&ref%d`, `!imp%d`, `|p%d`, `>g%d`, `@home%d`, "`bt%d`", `~%d`, `my backend %d`, `%d`, `0x%d`, `true%d`, `null-%d`, `a,b=%d`}
 
 // DocPlugins are the plugins the README / docs configure.
 var DocPlugins = []string{"logging", "size_limit", "gzip", "headers", "request-id"}
@@ -74,7 +147,7 @@ func GenValid(rt *rapid.T, pluginTypes []string) *Model {
 	m.BackendsMode = "list"
 	nb := rapid.IntRange(1, 3).Draw(rt, "backends")
 	for i := 0; i < nb; i++ {
-		b := Backend{Name: sp(fmt.Sprintf("server%d", i+1))}
+		b := Backend{Name: sp(fmt.Sprintf(pick(rt, "name_form", nameForms...), i+1))}
 		b.Address = sp(pick(rt, "address", fmt.Sprintf("http://localhost:%d", 8081+i), fmt.Sprintf("http://backend%d:8080", i+1), fmt.Sprintf("https://10.0.0.%d:8443", i+5)))
 		if w := pick(rt, "weight", -1, 0, 1, 2, 5); w >= 0 {
 			b.Weight = ip(w)
@@ -95,7 +168,7 @@ func GenValid(rt *rapid.T, pluginTypes []string) *Model {
 	m.Active.Mode = mode(rt, "active", 30, 15, 10, 45)
 	m.Active.Interval = pick(rt, "interval", 2, 5, 10, 30, 3600)
 	m.Active.Timeout = pick(rt, "timeout", 1, m.Active.Interval-1, max(1, m.Active.Interval/2))
-	m.Active.Path = pick(rt, "path", "/", "/health", "/healthz")
+	m.Active.Path = genPath(rt, "path", "/", "/health", "/healthz")
 	m.Passive.Mode = mode(rt, "passive", 30, 15, 10, 45)
 	m.Passive.Threshold = pick(rt, "threshold", 1, 3, 10, 1000)
 	m.Passive.Timeout = pick(rt, "unhealthy_timeout", 1, 30, 300, 86400)
@@ -118,7 +191,7 @@ func GenValid(rt *rapid.T, pluginTypes []string) *Model {
 
 	m.Metrics.Mode = mode(rt, "metrics", 35, 15, 10, 40)
 	m.Metrics.Port = pick(rt, "metrics_port", 2, 9090, 2112, 65534)
-	m.Metrics.Path = pick(rt, "metrics_path", "/metrics", "/m", "/stats/prometheus")
+	m.Metrics.Path = genPath(rt, "metrics_path", "/metrics", "/m", "/stats/prometheus")
 
 	m.Admin.Mode = mode(rt, "admin", 35, 15, 10, 40)
 	m.Admin.Port = pick(rt, "admin_port", 3, 9091, 8001, 65533)
@@ -135,7 +208,7 @@ func GenValid(rt *rapid.T, pluginTypes []string) *Model {
 			m.Admin.Port = m.Metrics.Port
 		}
 	}
-	m.Admin.Token = pick(rt, "token", "", "change-me", "your-secret-token-here")
+	m.Admin.Token = genSecret(rt, "token", "", "change-me", "your-secret-token-here", "use-a-strong-random-token-here-min-32-chars")
 	m.Admin.Lists = rapid.IntRange(0, 3).Draw(rt, "lists")
 
 	if rapid.IntRange(0, 3).Draw(rt, "has_logging") > 0 {
@@ -166,9 +239,13 @@ func GenValid(rt *rapid.T, pluginTypes []string) *Model {
 		for i := 0; i < n; i++ {
 			m.Plugins.Chain = append(m.Plugins.Chain, genPlugin(rt, pluginTypes))
 		}
+		m.Plugins.Key = genSecret(rt, "api_key", "", "secret123", "change-me")
+		m.Plugins.SetVal = genHeaderValue(rt, "set_value", "Helios")
+		m.Plugins.ReqVal = genHeaderValue(rt, "req_set_value", "LB")
 	}
 	m.Order = rapid.Permutation([]int{0, 1, 2, 3, 4, 5, 6, 7, 8, 9}).Draw(rt, "order")
 	m.Quote = rapid.Bool().Draw(rt, "quote")
+	m.Single = rapid.IntRange(0, 2).Draw(rt, "single_quotes") == 0
 	m.Comments = rapid.Bool().Draw(rt, "comments")
 	return m
 }
